@@ -149,6 +149,17 @@ def observe(ml):
         beyond = ml.item(n)
         types = [q.mediaType for q in qs]
         text = ml.mediaText
+        # the Python protocol must agree with the DOM one
+        if len(ml) != n:
+            raise Violation('protocol:len-differs-from-length', f'len {len(ml)} length {n} for {text!r}')
+        indexed = [ml[i] for i in range(n)]
+        if [getattr(x, 'mediaText', repr(x)) for x in indexed] != texts:
+            raise Violation('protocol:indexing-differs-from-iteration', f'{[getattr(x, "mediaText", repr(x)) for x in indexed]} vs {texts} for {text!r}')
+        try:
+            ml[n]
+            raise Violation('protocol:index-beyond-length', f'{text!r}[{n}]')
+        except IndexError:
+            pass
     return n, texts, items, beyond, types, text
 
 
@@ -193,6 +204,7 @@ op = st.one_of(
     st.tuples(st.just('append'), entry(), st.just(0)),
     st.tuples(st.just('delete'), mtype()),
     st.tuples(st.just('setitem'), st.integers(0, 4), entry(), st.integers(0, 30)),
+    st.tuples(st.just('delitem'), st.integers(0, 4)),
     st.tuples(st.just('text'), st.lists(entry(), min_size=1, max_size=4), st.integers(0, 30)),
 )
 list_strategy = st.fixed_dictionaries({
@@ -274,15 +286,25 @@ def _check_list(case, ctx):
         elif o[0] == 'setitem':
             i, e = o[1], o[2]
             s = simple(e)
-            if i >= len(model) or has_comment(ml):
-                ctx.event('excluded:setitem-out-of-range-or-comments')
+            if i >= len(model):
+                ctx.event('excluded:setitem-out-of-range')
                 continue
+            if has_comment(ml):
+                ctx.event('setitem-with-comments-in-list')
             others = [x for j, x in enumerate(model) if j != i]
             if (s is not None and any(simple(x) == s for x in others)) or (s == 'all' and others) or any(simple(x) == 'all' for x in others):
                 ctx.event('excluded:setitem-would-duplicate(F17-1)')
                 continue
             newmodel = model[:i] + [e] + model[i + 1:]
             call = lambda: ml.__setitem__(i, render_entry(e, o[3]))  # noqa: E731
+        elif o[0] == 'delitem':
+            i = o[1]
+            if i >= len(model):
+                expect_exc = None
+                ctx.event('excluded:delitem-out-of-range')
+                continue
+            newmodel = model[:i] + model[i + 1:]
+            call = lambda: ml.__delitem__(i)  # noqa: E731
         else:
             newmodel = canon(o[1])
             call = lambda: setattr(ml, 'mediaText', render_list(o[1], o[2]))  # noqa: E731
